@@ -1902,11 +1902,22 @@ class Walker:
                 return e.value, e.slice.upper
             return None
         simple = lambda e: isinstance(e, (ast.Name, ast.Attribute)) or (lead(e) is not None and isinstance(lead(e)[0], (ast.Name, ast.Attribute)))
-        if not all(simple(e) for e in ops) or not any(lead(e) is not None for e in ops):
+        def buffer(e):  # a numpy array this function allocated (`rows = np.zeros((n, n))`), or an array of a queue it built
+            if isinstance(e, ast.Attribute) and isinstance(e.value, ast.Name) and e.attr in HEAP_ARRAYS \
+                    and env.get(e.value.id, ("?",))[:2] == ("new", "Heap"):
+                return True
+            return isinstance(e, ast.Name) and env.get(e.id, ("?",))[0] == "alloc" and str(env[e.id][1]).startswith("numpy.")
+        if not all(simple(e) for e in ops) or not (any(lead(e) is not None for e in ops) or (len(ops) >= 2 and any(buffer(e) for e in ops))):
             return None
         if any(isinstance(x, ast.Starred) for x in tgts):
             return None
-        bound = next(lead(e)[1] for e in ops if lead(e) is not None)
+        if any(lead(e) is not None for e in ops):
+            bound = next(lead(e)[1] for e in ops if lead(e) is not None)
+        else:
+            # rows of a local matrix paired with the elements of another sequence: as many rounds as that sequence has elements
+            # (the matrix was allocated with one row per element - the shape rules of the caller check that)
+            other = next((e for e in ops if not buffer(e)), ops[0])
+            bound = ast.Call(func=ast.Name(id="len", ctx=ast.Load()), args=[other], keywords=[])
         if any(lead(e) is not None and unparse(lead(e)[1]) != unparse(bound) for e in ops):
             return None
         self._cw_n = getattr(self, "_cw_n", 0) + 1
@@ -1936,6 +1947,25 @@ class Walker:
         unz = self._unzip_loop(s, env)
         if unz is not None:
             return self.for_(unz, env)
+        # `for i, x in enumerate(xs, start=s)` is `for p, x in enumerate(xs): i = p + s`
+        if isinstance(s.iter, ast.Call) and isinstance(s.iter.func, ast.Name) and s.iter.func.id == "enumerate" and "enumerate" not in env \
+                and len(s.iter.args) in (1, 2) and (len(s.iter.args) == 2) != (len(s.iter.keywords) == 1 and s.iter.keywords[0].arg == "start") \
+                and (len(s.iter.args) == 2 or s.iter.keywords) and isinstance(s.target, ast.Tuple) and len(s.target.elts) == 2 \
+                and isinstance(s.target.elts[0], ast.Name) and not s.orelse:
+            startv = s.iter.args[1] if len(s.iter.args) == 2 else s.iter.keywords[0].value
+            self._cw_n = getattr(self, "_cw_n", 0) + 1
+            pn = f"$e{self._cw_n}"
+            bind = ast.Assign(targets=[ast.Name(id=s.target.elts[0].id, ctx=ast.Store())],
+                              value=ast.BinOp(left=ast.Name(id=pn, ctx=ast.Load()), op=ast.Add(), right=startv), lineno=s.lineno)
+            loop = ast.For(target=ast.Tuple(elts=[ast.Name(id=pn, ctx=ast.Store()), s.target.elts[1]], ctx=ast.Store()),
+                           iter=ast.Call(func=ast.Name(id="enumerate", ctx=ast.Load()), args=[s.iter.args[0]], keywords=[]),
+                           body=[bind] + list(s.body), orelse=[], lineno=s.lineno)
+            ast.copy_location(loop, s)
+            for n in ast.walk(loop):
+                if not hasattr(n, "lineno"):
+                    ast.copy_location(n, s)
+            ast.fix_missing_locations(loop)
+            return self.for_(loop, env)
         rec = record_items(self.repo, (self.fnstack[-1] if self.fnstack else self.entry).module, s.iter)
         if rec is not None:
             # a loop over the fields of a constant record: one copy of the body per (name, default) pair
@@ -2301,7 +2331,14 @@ class Walker:
         if counted is not None:
             return self.for_(counted, env)
         li = self._enter_loop("while", s, env)
+        # (a name bound by `:=` in the test is rebound at the top of every round)
+        walrus = [n.target.id for n in ast.walk(s.test) if isinstance(n, ast.NamedExpr) and isinstance(n.target, ast.Name)]
         names, init = self._loop_body(li, s.body, env, [])
+        for n in walrus:
+            if n not in names:
+                names.append(n)
+                init[n] = env.get(n, ("undef",))
+                env[n] = ("phi", li.lid, n)
         body = s.body
         first = next((x for x in body if not (isinstance(x, ast.Expr) and isinstance(x.value, ast.Constant))), None)
         if isinstance(s.test, ast.Constant) and s.test.value is True and isinstance(first, ast.If) \
@@ -2332,6 +2369,11 @@ class Walker:
     # -- expressions -----------------------------------------------------------
     def binop(self, op: str, l: Term, r: Term) -> Term:
         isint = lambda t: t[0] == "const" and isinstance(t[1], int) and not isinstance(t[1], bool)
+        if op == "-" and l[0] == "bin" and l[1] == "+" and r in (l[2], l[3]) and r[0] != "const":
+            # (p + n) - n is p for the integer counters this is applied to (an enumerate offset taken off again)
+            other = l[3] if l[2] == r else l[2]
+            if other[0] in ("iterproj", "iter", "phi"):
+                return other
         if op == "-" and isint(r) and l[0] == "bin" and l[1] == "+" and (isint(l[2]) != isint(l[3])):
             # (a + c1) - c2  ->  a + (c1 - c2)   (exact for the integer quantities this is applied to: sizes, slots)
             c1, a = (l[2], l[3]) if isint(l[2]) else (l[3], l[2])
